@@ -113,6 +113,11 @@ pub fn variants_sp() -> Vec<Variant> {
     } } }
     v
 }
+pub fn variants_sp_dom() -> Vec<Variant> {
+    let mut v = vec![];
+    for rub in [Rub::None, Rub::Exact] { for rank in [Rank::Asc, Rank::Desc] { v.push(Variant { rub, dom: Dom::Coord, rank, revperm: false, flat: true, bonus: false, la: false }); } }
+    v
+}
 pub fn variants_kp() -> Vec<Variant> {
     let mut v = vec![];
     // `bonus` selects the merge operator of the knapsack model (max capacity / one above it, see family.rs)
